@@ -104,7 +104,42 @@ fn blocks_for(tier: Tier) -> Vec<Block> {
         let l = plan.iter().find(|p| p.0 == devs.len()).map(|p| p.1).unwrap_or(2);
         out.push(Block { devs, spec, max_len: l });
     }
+    out.extend(requirement_blocks(match tier { Tier::Quick => 2, Tier::Thorough => 3 }));
     out
+}
+
+/// Second family: requirement graphs. Every set of <= 3 edges from the `requires`-like edges of the
+/// relation catalogue (requires between a,b,c,o, requires a group, requires_if, group requires) on
+/// the relation base command — termination of the requirement unrolling is a C01 matter.
+fn requirement_blocks(max_len: usize) -> Vec<Block> {
+    let cat = mcmodel::rel::catalogue();
+    let idx: Vec<usize> = cat.iter().enumerate().filter(|(_, e)| e.name.contains("requires")).map(|(i, _)| i).collect();
+    let mut out = vec![];
+    for set in subsets_upto(idx.len(), 3) {
+        if set.is_empty() {
+            continue;
+        }
+        let mut c = mcmodel::rel::base();
+        let mut names: Vec<&'static str> = vec!["requirement-graph"];
+        for &k in &set {
+            (cat[idx[k]].apply)(&mut c);
+            names.push(Box::leak(cat[idx[k]].name.clone().into_boxed_str()));
+        }
+        out.push(Block { devs: names, spec: c, max_len });
+    }
+    out
+}
+
+fn rel_alphabet() -> Vec<Vec<u8>> {
+    mcmodel::rel::TOKENS.iter().map(|t| t.as_bytes().to_vec()).collect()
+}
+
+fn alphabet_of(b: &Block) -> Vec<Vec<u8>> {
+    if b.devs.first() == Some(&"requirement-graph") {
+        rel_alphabet()
+    } else {
+        alphabet(&b.spec)
+    }
 }
 
 fn case_json(b: &Block, argv: &[Vec<u8>], ignoring: bool) -> Value {
@@ -164,7 +199,7 @@ fn main() {
         let mut si = blk.spec.clone();
         si.set(Setting::IgnoreErrors);
         let cmd_i = build_valid(&si).ok();
-        let alpha = alphabet(&blk.spec);
+        let alpha = alphabet_of(blk);
         let mut idx = 0u64;
         let mut found: Option<Vec<Vec<u8>>> = None;
         for_each_seq(alpha.len(), blk.max_len, |s| {
@@ -205,11 +240,13 @@ fn main() {
             }
         };
         accepted.fetch_add(1, std::sync::atomic::Ordering::Relaxed);
-        by_d[b.devs.len().min(3)].fetch_add(1, std::sync::atomic::Ordering::Relaxed);
+        if b.devs.first() != Some(&"requirement-graph") {
+            by_d[b.devs.len().min(3)].fetch_add(1, std::sync::atomic::Ordering::Relaxed);
+        }
         let mut si = b.spec.clone();
         si.set(Setting::IgnoreErrors);
         let cmd_i = build_valid(&si).ok();
-        let alpha = alphabet(&b.spec);
+        let alpha = alphabet_of(b);
         let mut argv: Vec<Vec<u8>> = Vec::new();
         let mut idx = 0u64;
         for_each_seq(alpha.len(), b.max_len, |s| {
@@ -268,6 +305,7 @@ fn main() {
         json!({
             "plan_(deviations,max_argv_len)": match tier { Tier::Quick => json!([[0,3],[1,3],[2,2]]), Tier::Thorough => json!([[0,4],[1,4],[2,3],[3,2]]) },
             "catalogue_size": mcmodel::dev::catalogue().len(),
+            "requirement_graphs_(<=3_requires-like_edges)": requirement_blocks(1).len(),
             "configurations_enumerated": blocks.len(),
             "configurations_rejected_by_validity_gate": rejected.load(std::sync::atomic::Ordering::Relaxed),
             "configurations_explored": accepted.load(std::sync::atomic::Ordering::Relaxed),
